@@ -109,6 +109,10 @@ type Scenario struct {
 	RootOK     bool     `json:"rootOk"`
 	TooLate    bool     `json:"tooLate"` // block timestamp is set beyond now + FutureBound at run time
 	VWDup      bool     `json:"vwDup"`   // the validity window reports a duplicate
+	// PreAdmit: before the block is executed, every transaction object has been looked at under OTHER rules (Units and
+	// StateKeys with all storage and base costs tripled), as admission before a rules change would; what is charged in
+	// the block must depend on the block's rules only
+	PreAdmit bool `json:"preAdmit,omitempty"`
 	ParentBlockTs uint64 `json:"parentBlockTs"` // timestamp in the parent block's HEADER (0 = same as the state timestamp ParentTs)
 	Genesis    []Alloc  `json:"genesis"`       // non-nil: the parent is the genesis commit of these allocations (C11 genesis scenarios)
 	Morpheus   bool     `json:"morpheus"` // reference VM: morpheusvm balance handler + Transfer actions
@@ -544,6 +548,15 @@ func (s *Scenario) execute(cfg Config) (Output, error) {
 	if err != nil {
 		return out, err
 	}
+	if s.PreAdmit {
+		alt := s.Rules
+		alt.BaseCompute, alt.KeyRead, alt.ValRead = 3*alt.BaseCompute+1, 3*alt.KeyRead+1, 3*alt.ValRead+1
+		alt.KeyAlloc, alt.ValAlloc, alt.KeyWrite, alt.ValWrite = 3*alt.KeyAlloc+1, 3*alt.ValAlloc+1, 3*alt.KeyWrite+1, 3*alt.ValWrite+1
+		for _, tx := range txs {
+			_, _ = tx.StateKeys(s.handler())
+			_, _ = tx.Units(s.handler(), alt.toRules())
+		}
+	}
 	ts := s.BlockTs
 	if s.TooLate {
 		ts = time.Now().Add(10 * hchain.FutureBound).UnixMilli()
@@ -941,6 +954,30 @@ func genScenario(r *rand.Rand, prop string) *Scenario {
 				s.Txs[i].Actions[n-1] = a
 			}
 		}
+	}
+	if r.Intn(5) == 0 {
+		s.PreAdmit = true
+	}
+	if prop == "C01" && r.Intn(6) == 0 {
+		// reader hand-off under a controlled schedule: writer N, slow reader R1 (enqueued while N is unexecuted), reader
+		// R2 whose enqueueing is delayed until N has finished, then writer W while R1 is still running, then a reader.
+		// Four different sponsors, so that only the hot key orders the tasks. Every reader must see N's value.
+		k := pick(r, dataKeys)
+		mk := func(sp int, ops []Op, perm state.Permissions, sleepKeys, sleepExec int) TxIn {
+			base := (s.BlockTs/1000 + 1) * 1000
+			a := &ScriptAction{Compute: 1, Start: -1, End: -1, KeysB: [][]byte{k}, Perms: []state.Permissions{perm}, Ops: ops,
+				SleepKeys: sleepKeys, SleepExec: sleepExec}
+			return TxIn{ChainOK: true, MaxFee: 1 << 30, Sponsor: sp, Actor: sp, AuthOK: true, AuthCompute: 1, AuthStart: -1, AuthEnd: -1,
+				Nonce: uint64(len(s.Txs)), Expiry: base + 5000, Actions: []*ScriptAction{a}}
+		}
+		get := []Op{{Kind: OpGet, Key: k, Val: []byte{}}}
+		put := func(b byte) []Op { return []Op{{Kind: OpPut, Key: k, Val: []byte{b}}, {Kind: OpGet, Key: k, Val: []byte{}}} }
+		sps := r.Perm(numSponsors)
+		s.Txs = append(s.Txs, mk(sps[0], put(0x11), state.All, 0, 0))
+		s.Txs = append(s.Txs, mk(sps[1], get, state.Read, 0, 40+r.Intn(30)))
+		s.Txs = append(s.Txs, mk(sps[2], get, state.Read, 10+r.Intn(10), 0))
+		s.Txs = append(s.Txs, mk(sps[3], put(0x22), state.All, 0, 0))
+		s.Txs = append(s.Txs, mk(sps[2], get, state.Read, 0, 0))
 	}
 	if prop == "C24" && r.Intn(3) == 0 {
 		// fault injection: one key of the universe (metadata, data or balance) cannot be read from the parent
